@@ -61,6 +61,11 @@ THEOREMS = [
     "Cotengra.C15.inplace_crash_poisons",
     "Cotengra.C15.inplace_writer_new_reader",
     "Cotengra.C15.inplace_write_counterexample",
+    "Cotengra.C15.admissibleP_crash_safe",
+    "Cotengra.C15.writeInplace_admissibleP",
+    "Cotengra.C15.prefix_discipline_new_reader",
+    "Cotengra.C15.run_writeAtomic_self",
+    "Cotengra.C15.queryNew_refines_maybeRun",
     "Cotengra.C15.toy_prefix",
 ]
 TRUSTED = [
@@ -80,7 +85,7 @@ RULE = ("case = random 4-5 tensor network x layout {split, flat} x class {script
         "offset 0..len(entry) (wrapped file), every file-system call boundary (audit hook), RLIMIT_FSIZE offsets, "
         "a sample in completely fresh interpreters; one evaluation = one crash point with its later readers; "
         "non-trivial = the writer really died at that point")
-BUDGET = {"quick": 900, "thorough": 3000}
+BUDGET = {"quick": 900, "thorough": 1800}
 
 SCENARIOS = ("new", "overwrite", "improved", "fresh-dir")
 
@@ -164,10 +169,18 @@ def gen_case(rng, idx=0):
         for v in answers.values():
             v["score"] = _score(q, cls, v)
         others = []
+        seen_keys = {U.key_of({}, U._as_query(q), False)}
         for _k in range(rng.choice([1, 2])):
-            m = rng.choice([3, 4])
-            onet = gen.rand_net(rng, nmin=m, nmax=m, max_inds=6, dims=(2, 3), allow_scalar=False)
-            oq = _query_of(onet)
+            for _try in range(20):   # distinct cache keys (else two "others" are one entry)
+                m = rng.choice([3, 4])
+                onet = gen.rand_net(rng, nmin=m, nmax=m, max_inds=6, dims=(2, 3), allow_scalar=False)
+                oq = _query_of(onet)
+                ok = U.key_of({}, U._as_query(oq), False)
+                if ok not in seen_keys:
+                    seen_keys.add(ok)
+                    break
+            else:
+                continue
             ot = gen.rand_tree(rng, m)
             fl, st = _flops(oq, ot)
             oa = {"tree": ot, "sliced": [], "flops": fl, "struct": st}
@@ -579,7 +592,7 @@ def run(ctx, drv):
     root = tempfile.mkdtemp(prefix="verif-c15-")
     try:
         _corpus(ctx)
-        ncases = 8 if ctx.tier == "quick" else 120
+        ncases = 8 if ctx.tier == "quick" else 80
         for i in range(ncases):
             if ctx.time_left() < 30:
                 break
